@@ -171,6 +171,8 @@ def leaf_variant(desc):
     """Structural variant of a leaf description that selects a different code path."""
     if desc["k"] == "roind":
         return "pretransform" if desc.get("pre", "none") != "none" else "no_pretransform"
+    if desc["k"] in ("slice", "pixslice") and any(sl[2] is not None and sl[2] < 0 for sl in desc["slices"]):
+        return "backward_slice"
     return None
 
 
